@@ -63,7 +63,9 @@ def run(tier, replay=None):
     import copy
     cli_bases = [kinds.kinds_schema()] + [s for d, s in names.clash_schemas(tier) if not d.startswith("impl-name:")][:(1 if quick else 12)]
     for bi, base in enumerate(cli_bases):
-        for oi, (nm, inj) in enumerate([("cli_ns%d" % bi, None), (None, "verif_inj.hpp"), ("messages", "sub/verif_inj.hpp"), (base.msgs[0].name, None)]):
+        for oi, (nm, inj) in enumerate([("cli_ns%d" % bi, None), (None, "verif_inj.hpp"), ("messages", "sub/verif_inj.hpp"), (base.msgs[0].name, None),
+                                        # the form cmake/sbeppcHelpers.cmake uses for its anchor file: relative to <out>/<schema>/schema/
+                                        (None, "../../verif_anchor.hpp")]):
             s = copy.deepcopy(base)
             s.xml_package = base.package
             extra = []
@@ -106,7 +108,7 @@ def run(tier, replay=None):
                 # the injected header must be seen by every generated header before anything else: it defines a macro that
                 # each stand-alone compile demands (-include of a checker is not possible per header, so the checker is the
                 # header-alone TU itself, see below)
-                ip = os.path.join(sb.inc, s.inject)
+                ip = os.path.join(sb.inc, os.path.basename(s.inject) if s.inject.startswith("../../") else s.inject)
                 os.makedirs(os.path.dirname(ip), exist_ok=True)
                 open(ip, "w").write("#pragma once\n#define VERIF_INJECTED 1\n")
         except Exception as ex:     # rendering problems are ours
